@@ -139,6 +139,13 @@ def gen_interp2d(ctx):
     do_interp2d(ctx, [0.5, 1, 2.5, -1, 7, 1.5, 0, 3], [0, 1, 2, 3], doc_f, True, 'corpus')
     do_interp2d(ctx, [-1.0, 2.0, 5.0], [2.0], [[1.5, -2.0]], True, 'corpus')
     do_interp2d(ctx, [], [1.0, 2.0], [[1.0], [2.0]], True, 'corpus')
+    # small spacing on a huge level (epoch time stamps, absolute coordinates): spacing / magnitude far below 1e-10 although the spacing itself is
+    # far above the documented absolute guard 1e-10 (round 9, seed C20-r9-2: the guard made relative); dyadic values, so everything is exact
+    for level, gap in ((2.0 ** 31, 2.0 ** -7), (2.0 ** 40, 2.0 ** -6), (-2.0 ** 33, 2.0 ** -10), (2.0 ** 31, 1.0)):
+        xf = [level + k * gap for k in range(9)]
+        f = [[float(rng.randint(-40, 40)) / 4, float(k)] for k in range(9)]
+        x = [xf[0] - gap, xf[0], xf[3], xf[3] + gap / 4, xf[4] + gap / 2, xf[7] + 3 * gap / 4, xf[8], xf[8] + 5 * gap]
+        do_interp2d(ctx, x, xf, f, True, 'small spacing on a huge level')
     n_cases = 500 if ctx.tier == 'quick' else 12000
     for it in range(n_cases):
         exact = it % 3 == 0
